@@ -74,15 +74,17 @@ package gdbi
 //@   ensures def: result <==> tr.Current == nil
 
 //@ func (*DataElement).ToVertex
-//@   property C06
+//@   property C06 C03
 //@   nopanic
 //@   pure
 //@   requires nonnil: elem != nil
 //@   ensures nonnil: result != nil
+//@   ensures ids: result.Gid == elem.ID && result.Label == elem.Label
 
 //@ func (*DataElement).ToEdge
-//@   property C06
+//@   property C06 C03
 //@   nopanic
 //@   pure
 //@   requires nonnil: elem != nil
 //@   ensures nonnil: result != nil
+//@   ensures ids: result.Gid == elem.ID && result.Label == elem.Label && result.From == elem.From && result.To == elem.To
